@@ -36,6 +36,9 @@ def make_input(step, c, names, unknown="zz"):
     name = lambda k: names[k - 1] if k >= 1 else unknown
     act = step["act"]
     vals = [value((c, j + 1)) for j in range(len(nm))]
+    if act == "RejectWrongLength" and form == "table":
+        # one row per parameter, two columns (say estimate and standard error): the wrong number of values
+        return np.array([[v, v + 0.5] for v in vals[:npar]])
     if act == "Positional" or act == "RejectWrongLength" and form != "pairs-list":
         if form == "list":
             return list(vals)
